@@ -139,6 +139,37 @@ func init() {
 		}
 		return okHex(b, err)
 	})
+	registerOp("nmpre2", func(a []string) string {
+		// one Message object, decoded into from <b1>, then given the contents of <b2> by hand (the caller replaces the 5GMM /
+		// 5GSM part and the header), then encoded: the octets are those of a fresh Message decoded from <b2>
+		b1, b2 := aHex(a[0]), aHex(a[1])
+		m, m2 := nas.NewMessage(), nas.NewMessage()
+		if err := m.PlainNasDecode(&b1); err != nil {
+			return "err"
+		}
+		if err := m2.PlainNasDecode(&b2); err != nil {
+			return "err"
+		}
+		want, err := m2.PlainNasEncode()
+		if err != nil {
+			return "err"
+		}
+		want = append([]byte{}, want...)
+		m3 := nas.NewMessage()
+		b3 := append([]byte{}, b2...)
+		if err := m3.PlainNasDecode(&b3); err != nil {
+			return "err"
+		}
+		m.SecurityHeader, m.GmmMessage, m.GsmMessage = m3.SecurityHeader, m3.GmmMessage, m3.GsmMessage
+		got, err := m.PlainNasEncode()
+		if err != nil {
+			return "err"
+		}
+		if !bytes.Equal(got, want) {
+			return "ok diff " + hx(got) + " " + hx(want)
+		}
+		return "ok same"
+	})
 	registerOp("nmpdec", func(a []string) string {
 		b := aHex(a[0])
 		m := nas.NewMessage()
@@ -306,11 +337,21 @@ func nasShow(mi *nasMsgInfo, mv reflect.Value) string {
 	return strings.Join(p, " ")
 }
 
+// nasEncode: Encode<Msg> appends to the buffer it is given. Two calls in three the buffer already holds octets (a security
+// header in front of the message, as a sender assembles it): what was there stays and what is appended is the message.
 func nasEncode(mi *nasMsgInfo, mv reflect.Value) []byte {
-	buf := new(bytes.Buffer)
+	nasEncSeq++
+	prefix := [][]byte{nil, {0x7e, 0x02, 0xde, 0xad, 0xbe, 0xef, 0x07}, {0x7e, 0x00, 0x67}}[nasEncSeq%3]
+	buf := bytes.NewBuffer(append([]byte{}, prefix...))
 	mv.MethodByName("Encode" + mi.name).Call([]reflect.Value{reflect.ValueOf(buf)})
-	return buf.Bytes()
+	out := buf.Bytes()
+	if len(out) < len(prefix) || !bytes.Equal(out[:len(prefix)], prefix) {
+		return out // the octets in front were overwritten: shown whole
+	}
+	return out[len(prefix):]
 }
+
+var nasEncSeq int
 
 func nasDecode(mi *nasMsgInfo, b []byte) reflect.Value {
 	mv := reflect.New(mi.t)
@@ -488,6 +529,7 @@ func (mi *nasMsgInfo) optIdx() []int {
 func nasRt(e *emitter) {
 	g := nasGen{e}
 	rng := e.rng
+	prevPlain := ""
 	for _, name := range nasMsgNames {
 		mi := nasMsgs[name]
 		mi.probe()
@@ -697,6 +739,10 @@ func nasRt(e *emitter) {
 				res := e.op("nmpenc", append([]string{gs, hx(hdr), name}, toks...)...)
 				if strings.HasPrefix(res, "ok ") && res != "ok -" {
 					e.op("nmpdec", strings.TrimPrefix(res, "ok "))
+					if prevPlain != "" && rng.Intn(3) == 0 {
+						e.op("nmpre2", prevPlain, strings.TrimPrefix(res, "ok "))
+					}
+					prevPlain = strings.TrimPrefix(res, "ok ")
 				}
 			}
 		}
